@@ -254,6 +254,23 @@ func runFault(t *faultTask) *faultResult {
 			res.Viol = append(res.Viol, fmt.Sprintf("while running: contents %v (unknown %v) not explained by the acknowledged writes plus a subset of the failed ones; issued=%v acked=%v", obs, unk, w.Issued, w.Acked))
 			return
 		}
+		// C07 under faults: a table whose creation, write or sync failed belongs to nobody; once
+		// the background work has settled it must be gone again, not wait for the next Open
+		tableFaultOnly := len(t.Faults) > 0
+		for _, f := range t.Faults {
+			k := vstor.Kind(f.Kind)
+			if storage.FileType(f.Type) != storage.TypeTable || vstor.Mode(f.Mode) != vstor.ModeFail || (k != vstor.KCreate && k != vstor.KWrite && k != vstor.KSync) {
+				tableFaultOnly = false
+			}
+		}
+		if tableFaultOnly && !t.Probe {
+			phase = "residue"
+			w.CheckResidue("after a failed table creation/write/sync and 120 virtual seconds of settling")
+			if w.Failed() {
+				res.Viol = append(res.Viol, w.Viol...)
+				return
+			}
+		}
 		if t.Probe {
 			phase = "probe"
 			probeSuite(w, res)
@@ -288,6 +305,16 @@ func runFault(t *faultTask) *faultResult {
 		if !explain(w.Issued, w.Acked, obs, unk) {
 			res.Viol = append(res.Viol, fmt.Sprintf("after reopen: contents %v not explained by the acknowledged writes plus a subset of the failed ones; issued=%v acked=%v", obs, w.Issued, w.Acked))
 			return
+		}
+		if !t.Probe {
+			// "and in any case after close and reopen": whatever failed before, the reopened DB
+			// holds nothing but its live files once it has settled
+			phase = "residue2"
+			w.CheckResidue("after clean close and fault-free reopen")
+			if w.Failed() {
+				res.Viol = append(res.Viol, w.Viol...)
+				return
+			}
 		}
 		phase = "close2"
 		w.DB.Close()
